@@ -1,3 +1,32 @@
-(* C06 — statements are added with the proofs; see DESIGN.md *)
+(* C06 — Requests are retransmitted on the RFC 8489 schedule and fail at the deadline. Statements only.
+   Rto.next_rto is the RtoManager::next_rto of timeout.rs as used by the client model (Agent/Model.v: new_mgr, tmo_one). *)
 From Coq Require Import List NArith Bool.
-From Rustun Require Import Agent.Rto Agent.Model Agent.Monitors.
+Import ListNotations.
+From Rustun Require Import Agent.Rto.
+Open Scope N_scope.
+
+(* the first interval of a fresh manager started at t0 is RTO (slot 1), and the schedule invariant holds:
+   latest + last_rto = t0 + slot k with the calculator at position k *)
+Theorem C06_first_interval : forall r rm rc, 1 <= rc -> forall t0 m,
+  latest m = None -> mcalc m = calc_at r rm rc 0 ->
+  exists m', next_rto m t0 = (Some (slot r rm rc 1), m') /\ Minv r rm rc t0 1 m'.
+Proof. exact Rto.next_rto_first. Qed.
+Print Assumptions C06_first_interval.
+
+(* a timer call at `now`, at or after the pending slot t0 + slot k (however late), re-arms to the LEAST slot strictly
+   after now — the missed slots are skipped, the absolute schedule never shifts — or reports exhaustion exactly when
+   the deadline t0 + slot rc = t0 + RTO * (2^(rc-1) - 1 + rm) has passed *)
+Theorem C06_next_rto_expired : forall r rm rc, 1 <= rc -> forall t0 k m now,
+  Minv r rm rc t0 k m -> t0 + slot r rm rc k <= now ->
+  (exists k' d m', next_rto m now = (Some d, m') /\ k < k' <= rc /\ now + d = t0 + slot r rm rc k' /\ now < t0 + slot r rm rc k'
+        /\ (forall j, k <= j < k' -> t0 + slot r rm rc j <= now) /\ Minv r rm rc t0 k' m' /\ latest m' = Some now)
+  \/ (exists m', next_rto m now = (None, m') /\ t0 + slot r rm rc rc <= now).
+Proof. exact Rto.next_rto_expired. Qed.
+Print Assumptions C06_next_rto_expired.
+
+(* the defaults (RTO 500 ms, Rm 16, Rc 7): transmissions at 0, 500, 1500, 3500, 7500, 15500, 31500 ms, failure at 39500 ms;
+   reliable transport is (timeout, 1, 1): one transmission, failure when the timeout has elapsed *)
+Example C06_defaults : map (slot 500 16 7) [0;1;2;3;4;5;6;7] = [0;500;1500;3500;7500;15500;31500;39500].
+Proof. vm_compute. reflexivity. Qed.
+Example C06_reliable : map (slot 5000 1 1) [0;1] = [0;5000].
+Proof. vm_compute. reflexivity. Qed.
